@@ -296,6 +296,16 @@ class SymNum(Sym):
             return r
         return SymNum(-z3.ToInt(-self.e))
 
+    def __ceil__(self):          # math.ceil / math.floor of a symbolic real: integer-sorted term, no fork
+        if self.e.sort() == z3.IntSort():
+            return self
+        return SymNum(-z3.ToInt(-self.e))
+
+    def __floor__(self):
+        if self.e.sort() == z3.IntSort():
+            return self
+        return SymNum(z3.ToInt(self.e))
+
     def __round__(self, n=None):
         if n is not None:
             raise Unsupported("round(x, n) of symbolic")
